@@ -49,6 +49,11 @@ CHECKS = {
          "Every model is encoded with pbutil in binary, JSON and text form, indented and compact, decoded again and compared with proto.Equal; JSON must be well-formed; a root file that only imports the encoded file is compiled by the real parser and its applications compared (locations and import list ignored). The string sweep places every sequence of <=2 (thorough 3) tokens (quotes, backslashes, '\": ', double spaces, newlines, tabs, braces...) in name parts, long names, attribute values, array elements and multi-line annotations.",
          "library-level round trip on compiler-produced models",
          "DESIGN.md §4 C09"),
+ "C10": ("exploration",
+         "bounded-exhaustive enumeration of a typed expression grammar (depth <= 2), let-sequences and shadowing/nesting probes, evaluated by the real eval.EvaluateView and compared with an independent reference interpreter with value semantics",
+         "Every well-typed expression of depth <=2 over the evaluator's own operator table and a literal pool, every let-sequence up to length 3 (thorough 4) whose right-hand sides reuse all earlier names (each binding read back at the end), scope-variable shadowing by where/flatten/transforms, nested transforms over lists, sets and maps with each result type, and calls to other views are evaluated and must equal the reference interpreter's value; a second evaluation must agree.",
+         "only operator/kind combinations in the evaluator's dispatch tables; evaluation failure is os.Exit in the library (observed as worker death)",
+         "DESIGN.md §4 C10"),
  "C13": ("exploration",
          "bounded-exhaustive model enumeration (every endpoint body of an alphabet x call targets over all endpoints = all call graphs) through the real generator; PlantUML sequence reader + reference call-tree walk as oracle",
          "For every model of 3 (thorough also 4) endpoints in several application distributions, every start endpoint and every option (plain, group-by attribute, each other endpoint blackboxed) the real GenerateSequenceDiag must return a diagram whose participants are declared exactly once, whose activations balance and never go negative, in which a participant sends a call only while active and every block is closed, and whose call arrows equal the reference walk (source order, a call in progress is shown but not expanded, a blackboxed endpoint is not expanded). 7.4 million diagrams in the quick tier.",
